@@ -313,6 +313,16 @@ type Case struct {
 	Hist *VarHist `json:"variable_history,omitempty"`
 	// RegHist: for Pollute >= 3, the orders of the contents the reused objects held (informational)
 	RegHist string `json:"register_history,omitempty"`
+	// Entry "concrete": every instruction whose operation has an upper-case concrete twin (NEG, ABS,
+	// EXP, LOG, LOG1P, SQRT, ADD, SUB, MUL, DIV, POW, MIN, MAX, LOGADD, LOGSUB) and whose operands,
+	// scratch temporary and destination all have the receiver's concrete type (*Real64 / *Real32)
+	// is called through that twin; the other instructions through the Scalar interface ("" = all
+	// instructions through the interface)
+	Entry string `json:"entry_points,omitempty"`
+	// Overwrite: after the program every object that is still alive (input variables, result
+	// registers, scratch temporaries, constant-valued magic scalars) is overwritten in turn by
+	// X_k := W_k*W_k (see overwriteRound); afterwards every X_k must hold exactly that product
+	Overwrite bool `json:"overwrite_live_objects,omitempty"`
 }
 
 // VarHist: an earlier differentiation round on the variable objects. The objects were created
